@@ -54,6 +54,33 @@ def run(tier, seed):
         if sites:
             R.violation('the parse path for heap-backed buffers stores into module-level object(s) %s (static frame check on the IR of the std::vector-backed instantiation; not solver-decided: shared mutable state across calls / threads)' % (
                         ', '.join(sorted(set('%s at %s' % s for s in sites)))[:400]), {'query': 'static_frame_heap', 'kind': 'build', 'unit': hb.unit.name, 'input_hex': ''})
+    # std::ostream instantiation (messages, verbose trace, write_diag_str through a real ostream): iostream code cannot be translated, so again only the STATIC part of the
+    # frame condition: no function of namespace ctpg may refer to a mutable module-level object (namespace-scope variable, function-local static, ...).  Syntactic, on the
+    # unoptimised IR; not solver-decided and labelled as such.
+    os_cpp = ('#include "hv.h"\n#include <sstream>\n#include <string>\nusing namespace ctpg; using namespace ctpg::buffers; using namespace ctpg::ftors;\n'
+              'hv::state hv::hv_S; const void* hv::hv_ctx_addr = nullptr; unsigned hv::hv_ctx_tag = 0; hv::lex_state hv::hv_L;\n#define HV_CTX_PARAM hv::ctx_t&\n' + emit.grammar_cpp(g0) +
+              '\nextern "C" unsigned k_os(const char* txt, std::ostream& os) {\n    parse_options o; o.set_verbose(true).set_skip_whitespace(true);\n'
+              '    auto r = g::p.parse(o, string_buffer(std::string(txt)), os);\n    auto r2 = g::p.parse(o, cstring_buffer("ab"), os);\n    g::p.write_diag_str(os);\n'
+              '    return (r.has_value() ? *r : 0u) + (r2.has_value() ? 1u : 0u);\n}\n')
+    src = os.path.join(wd, 'os_frame.cpp'); ll = os.path.join(wd, 'os_frame.ll')
+    with open(src, 'w') as f: f.write(os_cpp)
+    rcc, out, w, _ = vlib.run(['clang++-14', '-std=c++17', '-O0', '-S', '-emit-llvm', '-I' + os.path.join(vlib.REPO, 'include'), '-I' + vlib.HARNESS, '-Wno-everything', src, '-o', ll], timeout=600, mem_gb=8)
+    if rcc != 0: R.inconclusive.append('std::ostream instantiation does not build: %s' % out[:300])
+    else:
+        mut = set(); sites = []; cur = None
+        for ln in open(ll):
+            m = re.match(r'(@[\w.$]+|@"[^"]+") = (?!external)(?:[\w() ]+ )?global ', ln)
+            if m and ' constant ' not in ln.split('=')[1][:80]: mut.add(m.group(1)); continue
+            m = re.match(r'define .*?(@[\w.$]+|@"[^"]+")\(', ln)
+            if m: cur = m.group(1); continue
+            if ln.startswith('}'): cur = None; continue
+            if cur and '4ctpg' in cur:
+                for g_ in re.findall(r'@[\w.$]+|@"[^"]+"', ln):
+                    if g_ in mut and '2hv' not in g_ and '_ZGV' not in g_ and 'ioinit' not in g_: sites.append((g_, cur))
+        R.extra['static_frame_check_ostream_instantiation'] = {'mutable_module_objects': len(mut), 'references_from_ctpg_functions': len(sites)}
+        if sites:
+            R.violation('functions of namespace ctpg refer to mutable module-level object(s): %s (static frame check on the IR of the std::ostream instantiation; not solver-decided: shared mutable state across calls / threads)' % (
+                        ', '.join(sorted(set('%s in %s' % (a_[:80], b_[:80]) for a_, b_ in sites)))[:400]), {'query': 'static_frame_ostream', 'kind': 'build', 'unit': 'os_frame', 'input_hex': ''})
     rc = cp.run_deferred(R, tier, cases,
         'one query per (unit, entry point in {parse, context_parse, parse after an earlier parse, regex::expr::match}, exact input length): for every byte string no store of the real code targets any '
         'module-level object (frame condition), and the result of a call after an earlier call on the same parser object equals the reference of the isolated call',
